@@ -341,7 +341,7 @@ class Arr:
     """numpy array: concrete rank, symbolic shape, elementwise term function."""
 
     def __init__(self, shape, elem, dtype, tag="arr", fields=None):
-        self.shape = tuple(shape)
+        self.shape = tuple((x.e if isinstance(x, SV) else x) for x in shape)
         self.elem = elem  # elem(*idx) -> z3 term (or python scalar)
         self.dtype = dtype  # 'int' | 'bool' | 'real' | 'uid' | 'rec'
         self.tag = tag
